@@ -1,8 +1,265 @@
 /-
-  C16 — property theorems (only `theorem C16_*` statements and non-vacuity examples live here;
-  helper lemmas go to CedarGoProofs/Lemmas/).
+  C16 — Schema resolution and validation terminate without crashing.
+
+  The model (CedarGo/Model/Schema/Resolve.lean) transcribes `resolved.Resolve` and the validator's three
+  hierarchy walks; Go recursion that is not structural carries fuel, `none` = "still running".  The theorems say
+  which recursions never run out of the fuel the model gives them — and which one does for EVERY fuel.
+  The proofs that cannot be written are the findings:
+    * `isEntityDescendant` has no visited set: `C16_isEntityDescendant_diverges`;
+    * the Kahn pass and `resolveType` disagree about the namespace of a common type whose name starts with ':':
+      `C16_resolveType_total_counterexample`;
+    * `typeOfValue` type-asserts `EntityUID` on set/record/extension literals: `C16_typeOfValue_total_counterexample`.
 -/
-import CedarGo.Model.Fold
+import CedarGoProofs.Lemmas.C16Total
 namespace CedarGo
+open CedarGo.Schema
+
+/-- Kahn's algorithm as written in `detectCommonTypeCycles` is complete: when it reports no cycle, the dependency
+    relation `deps` (the one the pass builds with `resolveTypeRefPath`) has no cycle through any common type. -/
+theorem C16_kahn_complete (r : RState) (h : detectCycles r = .ok ()) : ∀ c ∈ r.nodes, ¬ Reaches r.deps c c := by
+  obtain ⟨rank, _, _, hdec⟩ := kahn_rank r h
+  have key : ∀ u v, Reaches r.deps u v → u ∈ r.nodes → v ∈ r.nodes ∧ rank v < rank u := by
+    intro u v hr
+    induction hr with
+    | step hs => exact fun hu => ⟨deps_mem_nodes r _ _ hs, hdec _ hu _ hs⟩
+    | trans hs _ ih =>
+      intro hu
+      have h1 := hdec _ hu _ hs
+      obtain ⟨h2, h3⟩ := ih (deps_mem_nodes r _ _ hs)
+      exact ⟨h2, by omega⟩
+  intro c hc hr
+  have := (key c c hr hc).2
+  omega
+
+example : detectCycles { commonTypes := [("T0", .set (.typeRef "T1")), ("T1", .long)] } = .ok () := by decide +kernel
+example : detectCycles { commonTypes := [("T0", .set (.typeRef "T1")), ("T1", .typeRef "T0")] } = .error .cycle := by decide +kernel
+
+/-- and that relation contains every jump `resolveType` makes into the body of a common type, as long as the
+    reference does not start with a colon: the jump's target is the key `resolveTypeRefPath` computes, the namespace
+    passed on is the one the Kahn pass derives from that key, and the references of the body are `deps` edges. -/
+theorem C16_deps_cover_jumps (r : RState) (ns ref ns' : String) (b : Ty) (hc : refNoColon ref)
+    (h : lookupTypeRef r ns ref = .common ns' b) :
+    r.common? (resolveTypeRefPath r ns ref) = some b ∧ ns' = extractNamespace (resolveTypeRefPath r ns ref) ∧
+    ∀ ref' ∈ collectTypeRefs b, ∀ b', r.common? (resolveTypeRefPath r ns' ref') = some b' →
+      resolveTypeRefPath r ns' ref' ∈ r.deps (resolveTypeRefPath r ns ref) := by
+  obtain ⟨h1, h2⟩ := lookupTypeRef_common r ns ref ns' b hc h
+  refine ⟨h1, h2, fun ref' href' b' hb' => ?_⟩
+  rw [h2] at hb' ⊢
+  exact body_ref_mem_deps r _ b h1 ref' href' b' hb'
+
+/-- FULL STATEMENT (false, see the counterexample below): for every resolver state accepted by `detectCycles`, every
+    namespace and type, `resolveType` terminates within the fuel `|commonTypes| + 1`.
+
+    PROVED PART: the same under `RefsOk` — no type reference (in a common-type body or in the type being resolved)
+    starts with ':'.  What is missing is exactly the unvalidated-name case the counterexample exhibits. -/
+theorem C16_resolveType_total_partial (r : RState) (hok : RefsOk r) (h : detectCycles r = .ok ()) (ns : String) (t : Ty)
+    (ht : ∀ ref ∈ collectTypeRefs t, refNoColon ref) : ∃ res, resolveTypeFuel r r.fuel ns t = some res := by
+  obtain ⟨rank, hle, hpos, hdec⟩ := kahn_rank r h
+  have := resolveTypeFuel_ne_none_of_rank r hok rank hpos hdec r.commonTypes.length ns t ht (fun _ _ _ _ _ => hle _)
+  exact Option.ne_none_iff_exists'.mp this
+
+example : RefsOk { commonTypes := [("T0", .set (.typeRef "T1")), ("T1", .long)] } :=
+  ⟨by
+    intro c b hcb ref href
+    simp only [RState.common?, List.lookup] at hcb
+    split at hcb
+    · cases hcb; simp [collectTypeRefs] at href; subst href; decide
+    · split at hcb
+      · cases hcb; simp [collectTypeRefs] at href
+      · cases hcb⟩
+
+/-- the resolver state of `namespace A { type :b = c; type c = :b; }` (JSON accepts such names) -/
+def colonCycleState : RState := { commonTypes := [("A:::b", .typeRef "c"), ("A::c", .typeRef ":b")] }
+
+/-- The Kahn pass accepts `colonCycleState` (it files `A:::b` under the namespace `A:`), yet resolving `c` in
+    namespace `A` jumps `c → :b → c → …` for ever: `Resolve` overflows the stack. -/
+theorem C16_resolveType_total_counterexample :
+    ∃ (r : RState) (ns : String) (t : Ty), detectCycles r = .ok () ∧ ∀ fuel, resolveTypeFuel r fuel ns t = none := by
+  refine ⟨colonCycleState, "A", .typeRef "c", by decide +kernel, ?_⟩
+  have h1 : lookupTypeRef colonCycleState "A" "c" = .common "A" (.typeRef ":b") := by decide +kernel
+  have h2 : lookupTypeRef colonCycleState "A" ":b" = .common "A" (.typeRef "c") := by decide +kernel
+  have key : ∀ fuel, resolveTypeFuel colonCycleState fuel "A" (.typeRef "c") = none ∧
+      resolveTypeFuel colonCycleState fuel "A" (.typeRef ":b") = none := by
+    intro fuel
+    induction fuel with
+    | zero => exact ⟨rfl, rfl⟩
+    | succ f ih =>
+      constructor
+      · show resolveTyWith colonCycleState (resolveTypeFuel colonCycleState f) "A" (.typeRef "c") = none
+        unfold resolveTyWith
+        rw [h1]
+        exact ih.2
+      · show resolveTyWith colonCycleState (resolveTypeFuel colonCycleState f) "A" (.typeRef ":b") = none
+        unfold resolveTyWith
+        rw [h2]
+        exact ih.1
+  exact fun fuel => (key fuel).1
+
+/-- The DFS of `validateActionMembership` is sound: when it accepts, no action is its own (transitive) parent. -/
+theorem C16_action_cycle_detected (rs : RSchema) (D : List UID) (h : checkActionCycles rs = some (.ok D)) :
+    ∀ u ∈ rs.actions.map (·.1), ¬ Reaches rs.actionParents u u := by
+  obtain ⟨hc, hall⟩ := checkActionCycles_ok rs D h
+  exact fun u hu => hc.acyclic u (hall u hu)
+
+/-- `validateActionMembership` always returns: either a parent is undeclared (error) or the DFS, whose nesting is
+    bounded by the number of actions, finishes within the fuel `|actions| + 1`. -/
+theorem C16_action_dfs_total (rs : RSchema) : ∃ res, validateActionMembership rs = some res := by
+  apply Option.ne_none_iff_exists'.mp
+  unfold validateActionMembership
+  simp only
+  split
+  · simp
+  · rename_i hany
+    have hpar : ∀ a ∈ rs.actions, ∀ p ∈ a.2.parents, p ∈ rs.actions.map (·.1) := by
+      intro a ha p hp
+      apply Classical.byContradiction
+      intro hn
+      apply hany
+      refine List.any_eq_true.mpr ⟨a, ha, List.any_eq_true.mpr ⟨p, hp, ?_⟩⟩
+      simpa using hn
+    apply fbind_ne_none
+    · unfold checkActionCycles
+      apply visitListWith_ne_none
+      intro u hu d
+      exact visitFuel_ne_none rs _ (actionParents_closed rs hpar) _ [] u d (by simp) (by simp) hu (by simp)
+    · intro _; simp
+
+/-- FULL STATEMENT (false by `C16_resolveType_total_counterexample`): for EVERY schema, `Resolve` returns a resolved
+    schema or an error (`resolve s ≠ none`: no recursion of the transcription is still running when its fuel —
+    `|commonTypes| + 1` nested type jumps, `|actions| + 1` nested DFS calls, `|commonTypes| + 1` Kahn rounds — is used up).
+    PROVED PART: for every schema none of whose type references starts with ':' (cyclic or self-referential common
+    types, cyclic action groups, undefined references, shadowing, any namespaces included). -/
+theorem C16_resolve_total_partial (s : Schema) (hs : SchemaRefsOk s) : ∃ res, resolve s = some res := by
+  apply Option.ne_none_iff_exists'.mp
+  unfold resolve
+  apply fbind_ne_none' _ _ (by simp [flift])
+  intro r hr
+  have hr' : registerAll s = .ok r := by simpa [flift] using hr
+  have hok := registerAll_refsOk s hs r hr'
+  apply fbind_ne_none _ _ (by simp [flift])
+  intro _
+  apply fbind_ne_none' _ _ (by simp [flift])
+  intro u hu
+  have hcyc : detectCycles r = .ok () := by cases u; simpa [flift] using hu
+  apply fbind_ne_none _ _ (resolveNamespace_ne_none r hok hcyc "" s.bare {} (fun t ht => hs s.bare (by simp) t ht))
+  intro acc
+  apply fbind_ne_none _ _ (resolveNamespaces_ne_none r hok hcyc s.namespaces acc
+    (fun nd hnd t ht => hs nd.2 (by simp; exact Or.inr ⟨nd.1, by simpa using hnd⟩) t ht))
+  intro rs
+  apply fbind_ne_none _ _ ?_ (fun _ => by simp)
+  obtain ⟨res, hres⟩ := C16_action_dfs_total rs
+  simp [hres]
+
+example : SchemaRefsOk { bare := { commonTypes := [("T", { ty := .set (.typeRef "T") })], entities := [("E", { tags := some (.typeRef "T") })] } } := by
+  intro d hd t ht ref href
+  simp only [List.map_nil, List.mem_cons, List.not_mem_nil, or_false] at hd
+  subst hd
+  simp [nsTypes] at ht
+  rcases ht with rfl | rfl <;> simp [collectTypeRefs] at href <;> subst href <;> decide
+
+/-- On every schema `Resolve` lets through (its action-membership check succeeded), `isActionDescendant` — which has
+    no visited set either — terminates on every pair, within the fuel `|actions| + 1`. -/
+theorem C16_isActionDescendant_total (rs : RSchema) (h : validateActionMembership rs = some (.ok ())) (a anc : UID) :
+    ∃ b, isActionDescendantFuel rs (rs.actions.length + 1) a anc = some b := by
+  apply Option.ne_none_iff_exists'.mp
+  unfold validateActionMembership at h
+  simp only at h
+  split at h
+  · cases h
+  · rename_i hany
+    have hpar : ∀ a ∈ rs.actions, ∀ p ∈ a.2.parents, p ∈ rs.actions.map (·.1) := by
+      intro a ha p hp
+      apply Classical.byContradiction
+      intro hn
+      apply hany
+      refine List.any_eq_true.mpr ⟨a, ha, List.any_eq_true.mpr ⟨p, hp, ?_⟩⟩
+      simpa using hn
+    cases hc : checkActionCycles rs with
+    | none => simp [hc, fbind] at h
+    | some res =>
+      cases res with
+      | error e => simp [hc, fbind] at h
+      | ok D =>
+        obtain ⟨hcl, hall⟩ := checkActionCycles_ok rs D hc
+        obtain ⟨D', hcl', hlen, hcov⟩ := hcl.shrink (rs.actions.map (·.1)) (actionParents_closed rs hpar) hall
+        unfold isActionDescendantFuel
+        apply descFuel_total_of_closed rs.actionParents hcl' a
+        · by_cases ha : a ∈ rs.actions.map (·.1)
+          · exact Or.inl (hcov a ha)
+          · exact Or.inr (actionParents_of_not_mem rs a ha)
+        · simp only [List.length_map] at hlen
+          omega
+
+/-- `getEntityTypesIn` terminates on every schema (cyclic hierarchies included): each round of the `for changed`
+    loop adds an entity type not yet in the result, so `|entities| + 1` rounds suffice. -/
+theorem C16_getEntityTypesIn_total (rs : RSchema) (target : String) : ∃ l, getEntityTypesIn rs target = some l := by
+  apply Option.ne_none_iff_exists'.mp
+  unfold getEntityTypesIn
+  apply typesInLoop_ne_none
+  have := List.length_filter_le (fun e : String × REntity => !(target :: (rs.entities.filter fun e => e.2.parents.contains target).map (·.1)).contains e.1) rs.entities
+  unfold typesInMissing
+  omega
+
+/-- the schema `entity Group in [Group]; entity Other;` after resolution -/
+def selfParentSchema : RSchema :=
+  { entities := [("Group", { name := "Group", anns := [], parents := ["Group"], shape := .nil, tags := none }),
+                 ("Other", { name := "Other", anns := [], parents := [], shape := .nil, tags := none })] }
+
+/-- `isEntityDescendant` does NOT terminate on a cyclic entity hierarchy: on `entity Group in [Group]; entity Other;`
+    the call `isEntityDescendant(Group, Other)` — made by the type checker for `principal in Other::"g"` with a
+    `Group` principal — is still running for every amount of fuel (in Go: a fatal stack overflow). -/
+theorem C16_isEntityDescendant_diverges :
+    ∃ (rs : RSchema) (a b : String), ∀ fuel, isEntityDescendantFuel rs fuel a b = none := by
+  refine ⟨selfParentSchema, "Group", "Other", fun fuel => ?_⟩
+  induction fuel with
+  | zero => rfl
+  | succ f ih =>
+    have hp : selfParentSchema.entityParents "Group" = ["Group"] := by decide +kernel
+    show descListWith (fun p => descFuel selfParentSchema.entityParents f p "Other") "Other" (selfParentSchema.entityParents "Group") = none
+    rw [hp]
+    have hne : ("Group" : String) ≠ "Other" := by decide
+    simp only [descListWith, hne, if_false]
+    have : descFuel selfParentSchema.entityParents f "Group" "Other" = none := ih
+    rw [this]
+
+/-- More generally: whenever an entity type lists ITSELF as its first parent type (`entity G in [G, …]`, routine in
+    Cedar schemas), `isEntityDescendant(G, B)` never returns for any other type `B`. -/
+theorem C16_isEntityDescendant_self_parent_diverges (rs : RSchema) (a b : String) (rest : List String)
+    (hp : rs.entityParents a = a :: rest) (hab : a ≠ b) : ∀ fuel, isEntityDescendantFuel rs fuel a b = none := by
+  intro fuel
+  induction fuel with
+  | zero => rfl
+  | succ f ih =>
+    show descListWith (fun p => descFuel rs.entityParents f p b) b (rs.entityParents a) = none
+    rw [hp]
+    have : descFuel rs.entityParents f a b = none := ih
+    simp only [descListWith, hab, if_false, this]
+
+example : selfParentSchema.entityParents "Group" = "Group" :: [] := by decide +kernel
+
+/-- FULL STATEMENT (false by the theorem above): `isEntityDescendant` terminates on every resolved schema.
+    PROVED PART: it does whenever the entity types can be listed with every type's parents strictly later in the
+    list (an acyclic hierarchy), within the fuel `|list| + 1`. -/
+theorem C16_isEntityDescendant_total_partial (rs : RSchema) (D : List String) (hD : Closed rs.entityParents D)
+    (hcov : ∀ e ∈ rs.entities, e.1 ∈ D) (a b : String) : ∃ r, isEntityDescendantFuel rs (D.length + 1) a b = some r := by
+  apply Option.ne_none_iff_exists'.mp
+  unfold isEntityDescendantFuel
+  apply descFuel_total_of_closed rs.entityParents hD a _ _ (by omega)
+  by_cases ha : a ∈ D
+  · exact Or.inl ha
+  · right
+    unfold RSchema.entityParents
+    split
+    · rename_i e he
+      exact absurd (hcov (a, e) (lookup_some_mem_pair a e _ he)) ha
+    · rfl
+
+example : Closed selfParentSchema.entityParents [] := Closed.nil
+
+/-- FULL STATEMENT (false): `typeOfValue` returns a type or an error for every literal.  A policy decoded from JSON
+    (or built with `ast.IPAddr`, `ast.Value(set)`, …) can hold a set, record or extension VALUE, for which the
+    fall-through `val.(types.EntityUID)` panics. -/
+theorem C16_typeOfValue_total_counterexample : ∃ k : LitKind, typeOfValueOutcome k = .error () :=
+  ⟨.set, rfl⟩
 
 end CedarGo
